@@ -455,9 +455,81 @@ func c04Conditional(c *Ctx) {
 	}
 }
 
+// custom matcher functions are "registered functions" too.  FunctionMap.AddFunction keeps the
+// FIRST function registered under a name (LoadOrStore), so a later AddFunction with the same
+// name changes nothing: the fresh enforcer gets the first one
+const c04FuncModel = `[request_definition]
+r = sub, obj, act
+[policy_definition]
+p = sub, obj, act
+[policy_effect]
+e = some(where (p.eft == allow))
+[matchers]
+m = pick(r.sub, p.sub) && r.obj == p.obj && r.act == p.act
+`
+
+func c04Functions(c *Ctx) {
+	fam := []func(args ...interface{}) (interface{}, error){
+		func(args ...interface{}) (interface{}, error) { return args[0] == args[1], nil },
+		func(args ...interface{}) (interface{}, error) { return true, nil },
+		func(args ...interface{}) (interface{}, error) { return false, nil },
+		func(args ...interface{}) (interface{}, error) { return args[0] == "alice", nil },
+	}
+	nh := 40
+	if c.Thorough() {
+		nh = 1000
+	}
+	ask := func(e *casbin.Enforcer) string {
+		var b strings.Builder
+		for _, s := range []string{"alice", "bob"} {
+			for _, o := range []string{"data1", "data2"} {
+				ok, err := e.Enforce(s, o, "read")
+				if err != nil {
+					b.WriteString("e")
+				} else {
+					b.WriteString(B(ok))
+				}
+			}
+		}
+		return b.String()
+	}
+	for h := 0; h < nh; h++ {
+		mm, _ := model.NewModelFromString(c04FuncModel)
+		e, _ := casbin.NewEnforcer(mm)
+		cur := c.Rng.Intn(len(fam))
+		e.AddFunction("pick", fam[cur])
+		var trace []string
+		id := fmt.Sprintf("c04.func.%d", h)
+		for i := 0; i < 3+c.Rng.Intn(6); i++ {
+			_ = ask(e)
+			switch c.Rng.Intn(3) {
+			case 0:
+				again := c.Rng.Intn(len(fam))
+				e.AddFunction("pick", fam[again]) // ignored: the name is taken
+				trace = append(trace, fmt.Sprint("AddFunction pick v", again, " (name taken by v", cur, ")"))
+			case 1:
+				r := []string{[]string{"alice", "bob"}[c.Rng.Intn(2)], []string{"data1", "data2"}[c.Rng.Intn(2)], "read"}
+				_, _ = e.AddPolicy(toIface(r)...)
+				trace = append(trace, fmt.Sprint("addp", r))
+			default:
+				r := []string{[]string{"alice", "bob"}[c.Rng.Intn(2)], []string{"data1", "data2"}[c.Rng.Intn(2)], "read"}
+				_, _ = e.RemovePolicy(toIface(r)...)
+				trace = append(trace, fmt.Sprint("rmp", r))
+			}
+			fresh := c04Fresh(c04FuncModel, e, func(f *casbin.Enforcer) { f.AddFunction("pick", fam[cur]) })
+			if got, want := ask(e), ask(fresh); got != want {
+				c.Direct(id, "decisions differ from a freshly constructed enforcer with the same model, listed rules and registered custom function", fmt.Sprintf("trace=%v got=%s fresh=%s", trace, got, want))
+				break
+			}
+		}
+		c.Count("custom-function-history")
+	}
+}
+
 func c04Wide(c *Ctx) {
 	c04Witnesses(c)
 	c04Conditional(c)
+	c04Functions(c)
 	nh := 150
 	if c.Thorough() {
 		nh = 4000
@@ -512,7 +584,24 @@ func c04Wide(c *Ctx) {
 		id := fmt.Sprintf("c04.wide.%d", h)
 		for i := 0; i < n; i++ {
 			_ = ask(e) // memoise before the change
-			switch c.Rng.Intn(14) {
+			switch c.Rng.Intn(16) {
+			case 14, 15:
+				// the manual way of changing the role graph: edit the model's rule list, then
+				// BuildRoleLinks() (both public API): decisions memoised before must not survive
+				gr, _ := e.GetGroupingPolicy()
+				if len(gr) > 0 && !patternOn {
+					r := append([]string(nil), gr[c.Rng.Intn(len(gr))]...)
+					_, _ = e.GetModel().RemovePolicy("g", "g", r)
+					_ = e.BuildRoleLinks()
+					trace = append(trace, fmt.Sprint("model.RemovePolicy(g)+BuildRoleLinks ", r))
+				} else if !patternOn {
+					r := gRules[c.Rng.Intn(len(gRules))]
+					if has, _ := e.HasGroupingPolicy(toIface(r)...); !has {
+						_ = e.GetModel().AddPolicy("g", "g", append([]string(nil), r...))
+						_ = e.BuildRoleLinks()
+						trace = append(trace, fmt.Sprint("model.AddPolicy(g)+BuildRoleLinks ", r))
+					}
+				}
 			case 12:
 				// SetModel: a new model object with the same text and the currently listed rules,
 				// then BuildRoleLinks (SetModel itself builds none).  Compiled matchers of the old
